@@ -1,10 +1,20 @@
 import GeomV.C20.TransformAgree
+import GeomV.C20.RouteGen
 /-!
-# C20: a datum given by the NAME WGS84 — which route `NewTransform`'s closure takes, with the REAL flags
+# C20: a datum given by the NAME WGS84 — which route `NewTransform`'s closure takes, with the REAL datum codes
 
-`C20_transform_agree` covers every datum not named WGS84 (both `DatumCode`s differ from `"WGS84"`, so the flag
-`codeWGS84` is false on both sides and the two pipelines are literally one function).  For `+datum=WGS84` /
-`DATUM["WGS_1984"|"D_WGS_1984"]` the flags DIFFER — proved here — and this is exactly what that does to the closure.
+`C20_transform_agree` (TransformAgree.lean) covers every datum: since fix b165df1 `checkNotWGS` folds the case of
+`DatumCode`, the PROJ.4 code `WGS84` and the WKT code `wgs84` give the same decision.  Here:
+
+* the tie of that decision to the source: `RouteGen.lean` is REGENERATED from transform.go / datum.go on every run
+  (`harness/cmd/c20 routegen`): the body of `checkNotWGS` translated (`genCheckNotWGS`), the condition of the
+  workaround in the closure translated (`genTwoHops`), the `pjd…` constants, the statements of the closure as text.
+  `genCheckNotWGS_eq` / `genTwoHops_eq` / `genPjd_eq` / `route_source_pins` tie them to C08's pipeline model, which
+  the theorems are about.  Re-introducing `dest.DatumCode != "WGS84"` changes `genCheckNotWGS` and breaks
+  `genCheckNotWGS_eq` (the old body is `checkNotWGSLiteral`, which `literal_differs` separates from the new one);
+* `C20_transform_route_wgs84`: with the real codes both sides take the DIRECT route against every other reference;
+* `C20_wgs84name_prefix_routes_differ`: what the pre-fix flag function (`DatumCode == "WGS84"`) did — kept as the
+  negation for the fixed finding `wgs84name` — and `C20_wgs84name_second_hop_skipped`: why that cost 16 µm.
 -/
 set_option linter.unusedSimpArgs false
 set_option linter.unusedVariables false
@@ -16,6 +26,9 @@ variable {α : Type} [C08.RTrans α] (ι : Rat → α)
 
 /-- does the closure of `NewTransform` go through WGS84 in two hops? (`checkNotWGS(source, dest) || checkNotWGS(dest, source)`) -/
 def twoHops (a b : C08.SR α) : Bool := C08.checkNotWGS a b || C08.checkNotWGS b a
+
+/-- the same with the decision as it was before fix b165df1 -/
+def twoHopsUnfixed (a b : C08.SR α) : Bool := C08.checkNotWGSUnfixed a b || C08.checkNotWGSUnfixed b a
 
 theorem transform_route (wgs a b : C08.SR α) (x y : α) :
     C08.transform wgs a b x y =
@@ -29,51 +42,136 @@ theorem transform_route (wgs a b : C08.SR α) (x y : α) :
   unfold C08.transform twoHops
   rfl
 
-/-- **C20_transform_route_wgs84** — for a well-formed description whose datum is given by the name WGS84:
+/-! ### ties to the regenerated source (`RouteGen.lean`) -/
+
+/-- the `datumType` constants of datum.go are the ones of C08's pipeline model and of C20's model of `getDatum` -/
+theorem genPjd_eq : gen_pjd3Param = C08.pjd3Param ∧ gen_pjd7Param = C08.pjd7Param ∧ gen_pjdGridShift = C08.pjdGridShift ∧
+    gen_pjdWGS84 = C08.pjdWGS84 ∧ gen_pjdNoDatum = C08.pjdNoDatum ∧
+    gen_pjd3Param = pjd3Param ∧ gen_pjd7Param = pjd7Param ∧ gen_pjdGridShift = pjdGridShift ∧ gen_pjdWGS84 = pjdWGS84 ∧
+    gen_pjdNoDatum = pjdNoDatum ∧ genPjdConsts.map (·.1) = ["pjd3Param", "pjd7Param", "pjdGridShift", "pjdWGS84", "pjdNoDatum"] := by
+  decide
+
+/-- the TRANSLATED body of `checkNotWGS` (current source) is the decision of C08's pipeline model on a reference whose
+code is `code`: it reads the datum type of the first and the code of the second reference and nothing else -/
+theorem genCheckNotWGS_eq (a b : C08.SR α) (code sc : Str) (dt : Nat) :
+    genCheckNotWGS a.datum.dtype sc dt code = C08.checkNotWGS a (withCode b (String.ofList code)) := by
+  unfold genCheckNotWGS C08.checkNotWGS
+  rw [withCode_datumCode, goEqualFold_ofList]
+  simp only [gen_pjd3Param, gen_pjd7Param, C08.pjd3Param, C08.pjd7Param, withCode]
+  cases h1 : a.datum.dtype == 1 <;> cases h2 : a.datum.dtype == 2 <;> simp_all
+
+/-- … and in terms of the flag of a parsed reference -/
+theorem genCheckNotWGS_flag (srcType : Nat) (r : SR XR) (sc : Str) (dt : Nat) :
+    genCheckNotWGS srcType sc dt r.datumCode = ((srcType == 1 || srcType == 2) && !codeWGS84 r) := by
+  unfold genCheckNotWGS codeWGS84
+  rfl
+
+/-- the translated condition of the workaround is `twoHops` -/
+theorem genTwoHops_eq (a b : C08.SR α) : genTwoHops C08.checkNotWGS a b = twoHops a b := rfl
+
+/-- the body of `checkNotWGS` BEFORE fix b165df1 (`… && dest.DatumCode != "WGS84"`), as the translator renders it -/
+def checkNotWGSLiteral (source_datum_datum_type : Nat) (dest_DatumCode : Str) : Bool :=
+  (((source_datum_datum_type == gen_pjd3Param) || (source_datum_datum_type == gen_pjd7Param)) && (dest_DatumCode != (s "WGS84")))
+
+/-- the two bodies differ exactly on the code the WKT reader writes: a reintroduced literal comparison cannot satisfy
+`genCheckNotWGS_eq` -/
+theorem literal_differs : genCheckNotWGS 2 [] 4 (s "wgs84") = false ∧ checkNotWGSLiteral 2 (s "wgs84") = true ∧
+    (∀ t, genCheckNotWGS t [] 4 (s "WGS84") = checkNotWGSLiteral t (s "WGS84")) := by
+  refine ⟨by decide, by decide, fun t => ?_⟩
+  simp [genCheckNotWGS, checkNotWGSLiteral, equalFold_refl]
+
+theorem route_source_pins :
+    genCheckNotWGSSig = "func(source, dest *SR) bool" ∧
+    genClosureStmts = "source := source ;; var err error ;; z := 0. ;; if <workaround> {…} ;; x, y, _, err = transform3(source, dest, x, y, z) ;; if err != nil { return math.NaN(), math.NaN(), err } ;; return x, y, nil" ∧
+    genWorkaroundBody = "wgs84, err := Parse(\"WGS84\") ;; if err != nil { return math.NaN(), math.NaN(), err } ;; x, y, z, err = transform3(source, wgs84, x, y, z) ;; if err != nil { return math.NaN(), math.NaN(), err } ;; source = wgs84" :=
+  ⟨rfl, rfl, rfl⟩
+
+/-! ### the routes -/
+
+theorem unfixed_ofList (a b : C08.SR α) (code : Str) :
+    C08.checkNotWGSUnfixed a (withCode b (String.ofList code)) = (C08.checkDatumParams a.datum.dtype && !decide (code = s "WGS84")) := by
+  unfold C08.checkNotWGSUnfixed C08.checkDatumParams
+  rw [withCode_datumCode]
+  have : (String.ofList code == "WGS84") = decide (code = s "WGS84") := by
+    by_cases h : code = s "WGS84"
+    · subst h; simp [s]
+    · have : String.ofList code ≠ "WGS84" := fun e => h (by rw [← String.toList_ofList (l := code), e]; rfl)
+      simp [h, this]
+  rw [this]
+
+/-- **C20_transform_route_wgs84** — for a well-formed description whose datum is given by the name WGS84, with the
+REAL datum codes (after fix b165df1):
 * both texts parse, to the same view (`expected c`), of datum type `pjdWGS84`;
-* the REAL flags differ: PROJ.4 keeps `DatumCode = "WGS84"` (flag true), WKT yields `"wgs84"` (flag false);
-  the two pipeline records differ in NOTHING but that flag;
-* PROJ.4 side: the closure to and from ANY other reference is the direct route `transform3`;
-* WKT side: the closure takes two hops through `defs["WGS84"]` exactly when the other reference has a 3- or
-  7-parameter datum, and the direct route otherwise.
-Hence against references without a 3/7-parameter shift both sides run `transform3` on records that differ only in
-a field `transform3` never reads; against 3/7-parameter references the WKT side inserts the hop through WGS84
-(geodetic → degrees → geodetic on the WGS84 ellipsoid), whose effect is the geocentric round trip of C08,
-measured ≤ 1 µm by every `pair…` line of the run (the run's grid goes to and from WGS84 and, for `hist` lines,
-3/7-parameter datums). -/
+* PROJ.4 keeps `DatumCode = "WGS84"`, WKT yields `"wgs84"` — different strings, and BOTH count as WGS84 for
+  `checkNotWGS` (`codeWGS84` = `EqualFold(·, "WGS84")` is true on both);
+* hence to and from ANY other reference both sides take the DIRECT route `transform3` (never the two hops through
+  `defs["WGS84"]`), on records that differ only in the code, which `transform3` does not read (`transform3_code`). -/
 theorem C20_transform_route_wgs84 (c : Crs) (st : Style) (hw : wellFormed c = true) (hst : styleOK st = true)
     (hn : numeralsRead c = true) (hd : c.datum = .wgs84) :
     ∃ rp rw v, parse (α := XR) (toProj4 c st) = .ok rp ∧ parse (α := XR) (toWkt c st) = .ok rw ∧
       view rp = some v ∧ view rw = some v ∧ v.datumType = pjdWGS84 ∧
-      codeWGS84 rp = true ∧ codeWGS84 rw = false ∧
-      pipeSR ι v (codeWGS84 rw) = { pipeSR ι v (codeWGS84 rp) with codeWGS84 := false } ∧
+      rp.datumCode = s "WGS84" ∧ rw.datumCode = s "wgs84" ∧ codeWGS84 rp = true ∧ codeWGS84 rw = true ∧
       ∀ (other : C08.SR α),
-        twoHops other (pipeSR ι v (codeWGS84 rp)) = false ∧ twoHops (pipeSR ι v (codeWGS84 rp)) other = false ∧
-        twoHops other (pipeSR ι v (codeWGS84 rw)) = C08.checkDatumParams other.datum.dtype ∧
-        twoHops (pipeSR ι v (codeWGS84 rw)) other = C08.checkDatumParams other.datum.dtype := by
+        twoHops other (pipeSR ι v rp.datumCode) = false ∧ twoHops (pipeSR ι v rp.datumCode) other = false ∧
+        twoHops other (pipeSR ι v rw.datumCode) = false ∧ twoHops (pipeSR ι v rw.datumCode) other = false := by
   unfold styleOK at hst
   simp only [Bool.and_eq_true, beq_iff_eq, decide_eq_true_eq] at hst
   have hf := wf_spheroid c hw
   obtain ⟨r1, hp1, hv1, hc1⟩ := p4_parse_agree c st hw hn hst.1 hf
   obtain ⟨r2, hp2, hv2, hc2⟩ := wkt_parse_agree c st hw hn hst.1 hst.2 hf
-  have f1 : codeWGS84 r1 = true := by
-    unfold codeWGS84
-    rw [hc1]
-    simp [dCode, hd, lowerCode]
-  have f2 : codeWGS84 r2 = false := by
-    unfold codeWGS84
+  have c1 : r1.datumCode = s "WGS84" := by rw [hc1]; simp only [dCode, hd]; decide
+  have c2 : r2.datumCode = s "wgs84" := by
     rw [hc2]
-    simp [datumCode_notWGS84 c st]
+    have h2 : ["WGS_1984", "D_WGS_1984"].all (fun n => decide (datumCodeOf n = s "wgs84")) = true := by decide +kernel
+    rw [List.all_eq_true] at h2
+    rcases wktDatumName_cases c st with ⟨_, hm⟩ | ⟨hnd, _⟩
+    · simpa using h2 _ hm
+    · exact absurd hd hnd
   have ht : (expected c).datumType = pjdWGS84 := by
     simp [expected, expDatum, hd]
-  refine ⟨r1, r2, expected c, hp1, hp2, hv1, hv2, ht, f1, f2, ?_, fun other => ?_⟩
-  · rw [f1, f2]; rfl
-  · rw [f1, f2]
-    have hX : ∀ b, (pipeSR ι (expected c) b).datum.dtype = 4 := fun b => by
-      show (expected c).datumType = 4
-      rw [ht]; rfl
-    have hcode : ∀ b, (pipeSR ι (expected c) b).codeWGS84 = b := fun b => rfl
-    simp [twoHops, C08.checkNotWGS, C08.checkDatumParams, hX, hcode, C08.pjd3Param, C08.pjd7Param]
+  refine ⟨r1, r2, expected c, hp1, hp2, hv1, hv2, ht, c1, c2, by rw [codeWGS84, c1]; decide, by rw [codeWGS84, c2]; decide,
+    fun other => ?_⟩
+  have hX : ∀ code, (pipeSR ι (expected c) code).datum.dtype = 4 := fun b => by
+    show (expected c).datumType = 4
+    rw [ht]; rfl
+  have hF : ∀ code, equalFold code (s "WGS84") = true →
+      C08.goEqualFold (pipeSR ι (expected c) code).datumCode "WGS84" = true := fun code h => by
+    show C08.goEqualFold (String.ofList code) "WGS84" = true
+    rw [goEqualFold_ofList, h]
+  have k1 := hF r1.datumCode (by rw [c1]; decide)
+  have k2 := hF r2.datumCode (by rw [c2]; decide)
+  simp [twoHops, C08.checkNotWGS, hX, k1, k2, C08.pjd3Param, C08.pjd7Param]
+
+/-- **C20_wgs84name_prefix_routes_differ** (the negation kept for the FIXED finding `wgs84name`; a statement about the
+pre-fix flag function `DatumCode == "WGS84"` and the pre-fix decision `C08.checkNotWGSUnfixed`) — for a datum given by
+the name WGS84 the pre-fix flags DIFFER (PROJ.4 true, WKT false); the PROJ.4 side always took the direct route, the
+WKT side took two hops through `defs["WGS84"]` exactly when the other reference has a 3- or 7-parameter datum. -/
+theorem C20_wgs84name_prefix_routes_differ (c : Crs) (st : Style) (hw : wellFormed c = true) (hst : styleOK st = true)
+    (hn : numeralsRead c = true) (hd : c.datum = .wgs84) :
+    ∃ rp rw v, parse (α := XR) (toProj4 c st) = .ok rp ∧ parse (α := XR) (toWkt c st) = .ok rw ∧
+      view rp = some v ∧ view rw = some v ∧
+      codeWGS84Literal rp = true ∧ codeWGS84Literal rw = false ∧
+      ∀ (other : C08.SR α),
+        twoHopsUnfixed other (pipeSR ι v rp.datumCode) = false ∧ twoHopsUnfixed (pipeSR ι v rp.datumCode) other = false ∧
+        twoHopsUnfixed other (pipeSR ι v rw.datumCode) = C08.checkDatumParams other.datum.dtype ∧
+        twoHopsUnfixed (pipeSR ι v rw.datumCode) other = C08.checkDatumParams other.datum.dtype := by
+  obtain ⟨r1, r2, v, hp1, hp2, hv1, hv2, ht, c1, c2, _, _, _⟩ := C20_transform_route_wgs84 ι c st hw hst hn hd
+  refine ⟨r1, r2, v, hp1, hp2, hv1, hv2, by rw [codeWGS84Literal, c1]; decide, by rw [codeWGS84Literal, c2]; decide, fun other => ?_⟩
+  have hX : ∀ code, (pipeSR ι v code).datum.dtype = 4 := fun b => by
+    show v.datumType = 4
+    rw [ht]; rfl
+  have u1 := unfixed_ofList other (pipeSR ι v []) r1.datumCode
+  have u2 := unfixed_ofList other (pipeSR ι v []) r2.datumCode
+  rw [← pipeSR_withCode] at u1 u2
+  rw [c1] at u1
+  rw [c2] at u2
+  have n1 : ∀ code, C08.checkNotWGSUnfixed (pipeSR ι v code) other = false := fun code => by
+    simp [C08.checkNotWGSUnfixed, hX, C08.pjd3Param, C08.pjd7Param]
+  rw [c1, c2]
+  simp only [twoHopsUnfixed, u1, u2, n1]
+  have ne : decide (s "wgs84" = s "WGS84") = false := by decide
+  have eq : decide (s "WGS84" = s "WGS84") = true := by decide
+  simp [ne]
 
 end
 
